@@ -140,6 +140,9 @@ pub struct ConnSpec {
     pub fault: Option<FaultSpec>,
     /// the broker closes the pipe this long after accepting it
     pub close_at_ms: Option<u64>,
+    /// the broker answers the CONNECT with this refusing return / reason code (no session, nothing else happens)
+    #[serde(default)]
+    pub refuse_code: Option<u8>,
 }
 
 impl ConnSpec {
@@ -151,6 +154,7 @@ impl ConnSpec {
             bursts: vec![],
             fault: None,
             close_at_ms: None,
+            refuse_code: None,
         }
     }
     pub fn rule(mut self, on: Cls, first: Vec<R>, rest: R) -> ConnSpec {
@@ -265,6 +269,14 @@ pub fn build(case: &Case) -> Scenario {
                     authentication_method: None,
                     authentication_data: None,
                 }),
+            };
+        }
+        if let Some(code) = c.refuse_code {
+            p.connack = ConnAckRule::Send {
+                session_present: false,
+                code,
+                delay_ms: 0,
+                props: None,
             };
         }
         for r in &c.rules {
@@ -418,7 +430,8 @@ pub fn by_connection(events: &[(usize, s3::Ev)]) -> (Vec<(usize, s3::Ev)>, Vec<V
 pub fn connacked_conns(log: &RunLog) -> Vec<usize> {
     let mut v = vec![];
     for w in &log.wire {
-        if w.dir == Dir::B2C && !w.suppressed && w.pk.kind == Kind::ConnAck && !v.contains(&w.conn) {
+        // (a refusing CONNACK establishes nothing)
+        if w.dir == Dir::B2C && !w.suppressed && w.pk.kind == Kind::ConnAck && w.pk.code == 0 && !v.contains(&w.conn) {
             v.push(w.conn);
         }
     }
